@@ -273,6 +273,8 @@ class IkeSa(object):
                            ''.format(self.peer_msg_id, message.message_id))
             return None
 
+        # receiving a fresh message from the peer resets the DPD timer (a copy of an old one proves nothing about the peer)
+        self.start_dpd_at = time.time() + self.configuration.dpd
         try:
             handler = _handler_dict[message.exchange_type]
         except KeyError:
@@ -321,6 +323,8 @@ class IkeSa(object):
                            ''.format(self.my_msg_id, message.message_id))
             return None
 
+        # receiving a fresh message from the peer resets the DPD timer (a copy of an old one proves nothing about the peer)
+        self.start_dpd_at = time.time() + self.configuration.dpd
         # increment our message ID for future requests
         self.my_msg_id = self.my_msg_id + 1
         try:
@@ -390,8 +394,6 @@ class IkeSa(object):
                            ''.format(self.spi_i.hex(), self.spi_r.hex()))
             return None
 
-        # receiving any kind of message from the peer resets the DPD timer
-        self.start_dpd_at = time.time() + self.configuration.dpd
         if message.is_request:
             return self._process_request(message)
         else:
